@@ -5,6 +5,7 @@ from oracles import torsion_o as T
 from props._util import rng_for, run_cases
 
 LEVEL = "other"
+EXPECT_FAIL = {"calculate_torsion_angle"}  # known finding: tertiary_v2 returns the negated torsion
 SMT_LEMMAS = ["mul_one", "mul_eq", "sq_one", "one_minus_sq", "prod_le_one", "sq_bound", "sumsq_nonneg", "pos_prod4", "inv_pos",
               "cancel_sq", "reversal", "mirror", "translation"]
 DEDUCTIVE = [
